@@ -197,6 +197,29 @@ class DelayEval(object):
         return False
 
 
+def connect_at_loop(R, RID):
+    """persist() starts an attempt where it iterates it: every websocket.connect(...) call is the iterable of a for loop.  A
+    connect() evaluated earlier (before the back-off, to have the next attempt "lined up") has already replaced the
+    WebSocket's state while the application still handles the events of the previous connection."""
+    g = R.cfg(FN)
+    cs = calls_to(R, g, 'websocket.WebSocket.connect')
+    f0 = R.func(FN)
+    wsp = f0.params[0]
+    hidden = [x for x in ast.walk(f0.node) if isinstance(x, ast.Call) and isinstance(x.func, ast.Attribute)
+              and x.func.attr == 'connect' and U(x.func.value) == wsp and not any(x is c_ for (_, c_) in cs)]
+    for x in hidden:
+        R.ob(RID, 'connect() is evaluated where its events are iterated', False,
+             '`%s` sits in a nested function of persist(): the attempt is started wherever that function is called, not at the '
+             'loop that consumes its events' % U(x)[:60], func=FN, node=x, construct='connect() call in a nested function')
+    need(cs or hidden, 'persist(): no websocket.connect(...) call')
+    for (n, c) in cs:
+        ok = (n.kind == 'forinit' and n.ast is c) or (n.kind == 'for' and getattr(n.ast, 'iter', None) is c)
+        R.ob(RID, 'connect() is evaluated where its events are iterated', ok,
+             '`%s` calls websocket.connect() outside the header of the loop that consumes it: the reset of the WebSocket happens '
+             'at that call, i.e. before / while the previous connection\'s last events (BackOff) are handled' % n.text()[:60],
+             func=FN, node=c, construct='connect() call site %s' % n.kind)
+
+
 def check(run):
     R = run
     R.rule('C16.shared', 'objects created once per class / per function definition (class-level attributes, parameter '
@@ -227,6 +250,7 @@ def check(run):
     rd = ReachingDefs(g)
     ctx = g.ctx
     need('exit_event' in f.params, 'persist() lost its exit_event parameter')
+    connect_at_loop(R, 'C16.forward')
 
     # --- locate the connection loop: a for whose iterable is a call to WebSocket.connect
     conn_for = []
